@@ -828,6 +828,9 @@ func (c *clusterClient) doresultfn(
 					continue
 				}
 				retryDelay = c.retryHandler.RetryDelay(attempts, cm, resp.Error())
+				if retryDelay < 0 {
+					continue // a negative delay means "do not retry": keep the result and do not queue the command again
+				}
 			} else {
 				nc = c.redirectOrNew(addr, cc, cm.Slot(), mode)
 			}
@@ -1288,6 +1291,9 @@ func (c *clusterClient) resultcachefn(
 					continue
 				}
 				retryDelay = c.retryHandler.RetryDelay(attempts, Completed(cm.Cmd), resp.Error())
+				if retryDelay < 0 {
+					continue // a negative delay means "do not retry": keep the result and do not queue the command again
+				}
 			} else {
 				nc = c.redirectOrNew(addr, cc, cm.Cmd.Slot(), mode)
 			}
